@@ -41,19 +41,38 @@ theorem C13_history (φ : Pos → Pos) (g : Graph) (n : Nat) (qs : List Query)
 
 /-- LAYOUT INDEPENDENCE, two-graph form (what the harness's layout pairs instantiate): two graphs
     that are equal once positions are erased (`sameShape`, evaluated by the driver) give the same
-    table - literally: bindings are identified by id - for two query positions that are ordered
-    alike relative to the bindings of the queried region (`orderIsoAt`, evaluated by the driver) -/
+    table - literally: bindings are identified by id - for two query positions that make the same
+    comparisons with the bindings of the queried region (`queryIsoAt`, evaluated by the driver:
+    exactly what `bisect_right` observes - for each binding, whether the position is strictly
+    before it) -/
 theorem C13_layouts (g1 g2 : Graph) (n : Nat) (R : List Nat) (f : Nat) (pos1 pos2 : Pos)
-    (hs : sameShape g1 g2 = true) (ho : orderIsoAt g1 g2 f pos1 pos2 = true) :
+    (hs : sameShape g1 g2 = true) (ho : queryIsoAt g1 g2 f pos1 pos2 = true) :
     namesAt g2 n R f pos2 = namesAt g1 n R f pos1 :=
-  namesAt_core (sameShape_eq hs) n R f pos1 pos2 (bisect_of_orderIso ho)
+  namesAt_core (sameShape_eq hs) n R f pos1 pos2 (bisect_of_queryIso ho)
 
 /-- and of a whole history on the memoised evaluator: two histories with the same flows and keys
-    whose positions are pairwise ordered alike (`historiesIso`) get the same answers -/
+    whose queries pairwise make the same comparisons (`historiesQueryIso`) get the same answers -/
 theorem C13_layouts_history (g1 g2 : Graph) (n : Nat) (qs1 qs2 : List Query)
-    (hs : sameShape g1 g2 = true) (hq : historiesIso g1 g2 qs1 qs2 = true) :
+    (hs : sameShape g1 g2 = true) (hq : historiesQueryIso g1 g2 qs1 qs2 = true) :
     runQueries g2 n {} qs2 = runQueries g1 n {} qs1 :=
   runQueries_layouts g1 g2 n hs qs1 qs2 {} hq
+
+/-- the stronger test "all positions involved are ordered alike" (`orderIsoAt`) implies it -/
+theorem C13_order_implies_query (g1 g2 : Graph) (f : Nat) (pos1 pos2 : Pos)
+    (ho : orderIsoAt g1 g2 f pos1 pos2 = true) : queryIsoAt g1 g2 f pos1 pos2 = true :=
+  queryIsoAt_of_orderIsoAt ho
+
+/-- corollary: the two-graph form under `orderIsoAt` -/
+theorem C13_layouts_order (g1 g2 : Graph) (n : Nat) (R : List Nat) (f : Nat) (pos1 pos2 : Pos)
+    (hs : sameShape g1 g2 = true) (ho : orderIsoAt g1 g2 f pos1 pos2 = true) :
+    namesAt g2 n R f pos2 = namesAt g1 n R f pos1 :=
+  C13_layouts g1 g2 n R f pos1 pos2 hs (queryIsoAt_of_orderIsoAt ho)
+
+/-- corollary: histories under `historiesIso` -/
+theorem C13_layouts_history_order (g1 g2 : Graph) (n : Nat) (qs1 qs2 : List Query)
+    (hs : sameShape g1 g2 = true) (hq : historiesIso g1 g2 qs1 qs2 = true) :
+    runQueries g2 n {} qs2 = runQueries g1 n {} qs1 :=
+  C13_layouts_history g1 g2 n qs1 qs2 hs (historiesQueryIso_of_historiesIso g1 g2 qs1 qs2 hq)
 
 /-- on a region kept sorted by `insert_loc`, `bisect_right` + "last binding wins" is
     "the bindings whose location is ≤ the query position": what `names_at` means -/
@@ -128,15 +147,40 @@ example :
       some (some [.undef "y", .nm 102, .nm 105]) :=
   ⟨fun _ _ => exPhi_preserves _, by decide +kernel, by decide +kernel, by decide +kernel⟩
 
-/-- `C13_layouts` / `C13_layouts_history`: the driver's tests succeed on the pair, fail when the
-    query position moves across a binding, and the answers are the ones above -/
+/-- `C13_layouts` / `C13_layouts_history` and their `order` corollaries: the driver's tests succeed
+    on the pair, fail when the query position moves across a binding, and the answers are the
+    ones above -/
 example :
     sameShape exGraph exGraph2 = true ∧ orderIsoAt exGraph exGraph2 3 (4, 10) (12, 5) = true ∧
+    queryIsoAt exGraph exGraph2 3 (4, 10) (12, 5) = true ∧
     orderIsoAt exGraph exGraph2 3 (4, 10) (20, 0) = false ∧
+    queryIsoAt exGraph exGraph2 3 (4, 10) (12, 0) = true ∧
+    queryIsoAt exGraph exGraph2 3 (4, 10) (11, 9) = false ∧
     historiesIso exGraph exGraph2 exQs exQs2 = true ∧
+    historiesQueryIso exGraph exGraph2 exQs exQs2 = true ∧
     runQueries exGraph2 20 {} exQs2 =
       [some (some [.undef "y", .nm 102, .nm 105]), some (some [.undef "z", .nm 103]),
        some (some [.nm 105])] := by
+  decide +kernel
+
+/-- the pair found on stdlib `symtable.py` vs its `ast.unparse` normal form:
+    `lambda x: ((x >> …` (parameter at the start of the body, col 29; `x` read at col 31) against
+    `lambda x: x >> …` (both at col 29).  "Binding before the position" vs "binding AT the
+    position": `orderIsoAt` fails, `queryIsoAt` holds - `bisect_right` treats both alike - and the
+    answers agree -/
+def exLam1 : Graph :=
+  Graph.mk [FlowRec.mk 0 0 [nmAt 1 "x" (1, 29)] []] [ScopeRec.mk 0 .module none [] 0 []] []
+def exLam2 : Graph :=
+  Graph.mk [FlowRec.mk 0 0 [nmAt 1 "x" (1, 29)] []] [ScopeRec.mk 0 .module none [] 0 []] []
+
+example :
+    sameShape exLam1 exLam2 = true ∧
+    orderIsoAt exLam1 exLam2 0 (1, 31) (1, 29) = false ∧
+    queryIsoAt exLam1 exLam2 0 (1, 31) (1, 29) = true ∧
+    historiesIso exLam1 exLam2 [⟨0, (1, 31), "x"⟩] [⟨0, (1, 29), "x"⟩] = false ∧
+    historiesQueryIso exLam1 exLam2 [⟨0, (1, 31), "x"⟩] [⟨0, (1, 29), "x"⟩] = true ∧
+    runQueries exLam2 5 {} [⟨0, (1, 29), "x"⟩] = [some (some [.nm 1])] ∧
+    runQueries exLam1 5 {} [⟨0, (1, 31), "x"⟩] = [some (some [.nm 1])] := by
   decide +kernel
 
 end SuppModel.Props.C13
